@@ -158,6 +158,22 @@ def recordCallNode (db : Db) (task args result : Nat) (kids : List H) : Db × H 
     let nodes := db.nodes ++ [{ id := h, task := task, args := args, result := result }]
     ({ db with nodes := nodes, edges := db.edges ++ newEdges nodes h kids }, h)
 
+/-- The durable states `record_call_node` can leave behind — what a process death, or a retry after a
+rolled-back transient error, finds — in commit order: nothing written yet; after the commit at the end of
+`_record_args`: the CallNode together with ALL its CallEdges (and its Argument rows, not in this model),
+because the node and the edges are added to the session before `_record_args` is called; after the final
+commit: additionally the CallSubtreeTask rows (not in this model), the call graph is unchanged.
+There is no durable state with the node but without its edges. -/
+def recordCallNodeDurable (db : Db) (task args result : Nat) (kids : List H) : List Db :=
+  [db, (recordCallNode db task args result kids).1, (recordCallNode db task args result kids).1]
+
+/-- For contrast only (NOT the code): a recorder that commits the CallNode before adding the edges. -/
+def splitDurable (db : Db) (task args result : Nat) (kids : List H) : List Db :=
+  let h := hashCallNode task args result kids
+  if db.hasNode h then [db] else
+  [db, { db with nodes := db.nodes ++ [{ id := h, task := task, args := args, result := result }] },
+   (recordCallNode db task args result kids).1]
+
 def addTag (tags : List Tag) (t : Tag) : List Tag := if t ∈ tags then tags else tags ++ [t]
 
 /-- The tags `_record_job_tags` writes for a job. -/
